@@ -31,12 +31,13 @@ Pw2(k) == IF k = 0 THEN 1 ELSE 2 * Pw2(k-1)
 TwoPow(b) == [i \in 1..22 |-> IF i = (b \div 12) + 1 THEN Pw2(b % 12) ELSE 0]
 S == INSTANCE BPVSteps WITH FZero <- Zero21, FOne <- One21, FTwoPow <- TwoPow
 
-VARIABLES pc, mi, r, cfg, wtid, cx, tb, dd, sc, acc, wts
-vars == <<l, scripts, abs, chal, rng, pc, mi, r, cfg, wtid, cx, tb, dd, sc, acc, wts>>
-avars == <<mi, r, cx, tb, dd, sc, acc, wts>>
+VARIABLES pc, mi, r, cfg, wtid, cx, tb, dd, sc, acc, wts,
+          allp      \* expected <<point token, scalar>> pairs of every dynamic role of every member processed so far
+vars == <<l, scripts, abs, chal, rng, pc, mi, r, cfg, wtid, cx, tb, dd, sc, acc, wts, allp>>
+avars == <<mi, r, cx, tb, dd, sc, acc, wts, allp>>
 
 Init == /\ l = 1 /\ TInit /\ pc = "idle" /\ mi = 0 /\ r = 0 /\ cfg = <<>> /\ wtid = 0
-        /\ cx = <<>> /\ tb = <<>> /\ dd = <<>> /\ sc = <<>> /\ acc = <<>> /\ wts = <<>>
+        /\ cx = <<>> /\ tb = <<>> /\ dd = <<>> /\ sc = <<>> /\ acc = <<>> /\ wts = <<>> /\ allp = <<>>
 
 NP == cfg.np
 Mem(i) == cfg.members[i]
@@ -82,9 +83,9 @@ ZeroSeq(n) == [i \in 1..n |-> Zero21]
 
 VMSMStart == /\ Is("VMSM") /\ pc = "run"
              /\ IF CheckArith
-                THEN /\ pc' = "red" /\ mi' = 1 /\ wts' = <<>> /\ UNCHANGED l
+                THEN /\ pc' = "red" /\ mi' = 1 /\ wts' = <<>> /\ allp' = <<>> /\ UNCHANGED l
                      /\ acc' = [Gi |-> ZeroSeq(MaxNM), Hi |-> ZeroSeq(MaxNM), H |-> Zero21, G |-> ZeroSeq(Mem(1).t)]
-                ELSE /\ pc' = "run" /\ l' = l + 1 /\ UNCHANGED <<mi, wts, acc>>
+                ELSE /\ pc' = "run" /\ l' = l + 1 /\ UNCHANGED <<mi, wts, acc, allp>>
                      /\ (Verifying => (Rec[l].out_zero <=> (cfg.result = "ok")))
              /\ UNCHANGED <<scripts, abs, chal, rng, r, cfg, wtid, cx, tb, dd, sc>>
 
@@ -97,18 +98,18 @@ Red == /\ pc = "red" /\ mi <= NP
           /\ cx' = [n |-> mb.n, m |-> mb.m, t |-> mb.t, k |-> k, nm |-> mb.n * mb.m,
                     y |-> Reduce(ch[1].wide), z |-> Reduce(ch[2].wide), e |-> Reduce(ch[k+3].wide),
                     es |-> [j \in 1..k |-> Reduce(ch[2+j].wide)], yinv |-> ch[1].inv, esinv |-> [j \in 1..k |-> ch[2+j].inv]]
-       /\ pc' = "tab0" /\ UNCHANGED <<l, scripts, abs, chal, rng, mi, r, cfg, wtid, tb, dd, sc, acc, wts>>
+       /\ pc' = "tab0" /\ UNCHANGED <<l, scripts, abs, chal, rng, mi, r, cfg, wtid, tb, dd, sc, acc, wts, allp>>
 \* claimed inverses are checked, not trusted
 Tab0 == /\ pc = "tab0"
         /\ FMul(cx.y, cx.yinv) = One21
         /\ \A j \in 1..cx.k : FMul(cx.es[j], cx.esinv[j]) = One21
         /\ tb' = S!Tab0(cx) /\ r' = 1 /\ pc' = "tab"
-        /\ UNCHANGED <<l, scripts, abs, chal, rng, mi, cfg, wtid, cx, dd, sc, acc, wts>>
+        /\ UNCHANGED <<l, scripts, abs, chal, rng, mi, cfg, wtid, cx, dd, sc, acc, wts, allp>>
 TabStep == /\ pc = "tab"
            /\ IF r <= S!NSteps(cx.nm, cx.m)
               THEN tb' = S!TabStep(tb, cx, r) /\ r' = r + 1 /\ pc' = "tab" /\ UNCHANGED dd
               ELSE dd' = S!DTab(tb, cx.n, cx.nm) /\ pc' = "scal" /\ UNCHANGED <<tb, r>>
-           /\ UNCHANGED <<l, scripts, abs, chal, rng, mi, cfg, wtid, cx, sc, acc, wts>>
+           /\ UNCHANGED <<l, scripts, abs, chal, rng, mi, cfg, wtid, cx, sc, acc, wts, allp>>
 Rsp(i) == [r1 |-> Mem(i).r1, s1 |-> Mem(i).s1, d1 |-> Mem(i).d1]
 \* mask recovery as an equation without inverses (C09, C10): the recovered value m_k is the unique solution of
 \*   d1_k = eta_k + e*d_k + e^2 * (alpha_k + sum_j (e_j^2 dL_jk + e_j^-2 dR_jk) + m_k * z^2 * y^(nm+1))
@@ -122,27 +123,33 @@ MaskOk(mb) ==
        /\ \A kk \in 1..cx.t :
             mb.d1[kk] = FAdd(mb.nref.eta[kk], FAdd(FMul(cx.e, mb.nref.d[kk]),
                           FMul(sc.e2, FAdd(FAdd(mb.nref.alpha[kk], SumLRn(mb.nref, kk, 1)), FMul(mb.mask[kk], FMul(sc.z2, sc.ynm1))))))
+\* the scalar the final MSM carried on the point with token T (summed over equal points; zero if the point is absent)
+RECURSIVE ObsFrom(_,_,_)
+ObsFrom(o, tk, i) == IF i > Len(o) THEN Zero21 ELSE IF o[i][1] = tk THEN o[i][2] ELSE ObsFrom(o, tk, i + 1)
+Obs(tk) == ObsFrom(Rec[l].obs, tk, 1)
 Scal == /\ pc = "scal"
         /\ sc' = S!Scal(tb, dd, cx, Rsp(mi), cx.nm)
-        /\ wts' = (IF Is("VMSM") THEN Append(wts, FSub(Zero21, Rec[l].per[mi].oB)) ELSE wts)    \* the weight is DEFINED by the scalar on B
+        /\ wts' = (IF Is("VMSM") THEN Append(wts, FSub(Zero21, Obs(Mem(mi).tok.B))) ELSE wts)   \* the weight is DEFINED by the scalar on B
         /\ pc' = (IF Is("VMSM") THEN "acc" ELSE "rec")
-        /\ UNCHANGED <<l, scripts, abs, chal, rng, mi, r, cfg, wtid, cx, tb, dd, acc>>
+        /\ UNCHANGED <<l, scripts, abs, chal, rng, mi, r, cfg, wtid, cx, tb, dd, acc, allp>>
 \* RecoverOnly: only the recovery equation, member by member
 RecStep == /\ pc = "rec"
            /\ MaskOk(Mem(mi))
            /\ IF mi < NP THEN mi' = mi + 1 /\ pc' = "red" /\ UNCHANGED l
               ELSE mi' = mi /\ pc' = "run" /\ l' = l + 1
-           /\ UNCHANGED <<scripts, abs, chal, rng, r, cfg, wtid, cx, tb, dd, sc, acc, wts>>
+           /\ UNCHANGED <<scripts, abs, chal, rng, r, cfg, wtid, cx, tb, dd, sc, acc, wts, allp>>
 \* weight provenance: a non-zero reduction of an output of the weight generator
 WeightFills == UNION { {rng[rid].fills[f].wide : f \in 1..Len(rng[rid].fills)} : rid \in {x \in DOMAIN rng : rng[x].tid = wtid} }
 Acc == /\ pc = "acc"
-       /\ LET w == wts[mi]  per == Rec[l].per[mi]  mb == Mem(mi)  rsp == Rsp(mi) IN
+       /\ LET w == wts[mi]  mb == Mem(mi)  rsp == Rsp(mi) IN
           /\ w # Zero21
           /\ \E f \in WeightFills : f # <<>> /\ Reduce(f) = w
           /\ \A i2 \in 1..(mi-1) : wts[i2] # w
-          /\ per.oA = FMul(w, S!RefA(sc)) /\ per.oA1 = FMul(w, S!RefA1(cx))
-          /\ \A j \in 1..cx.k : per.oL[j] = FMul(w, S!RefL(sc, cx, j)) /\ per.oR[j] = FMul(w, S!RefR(sc, cx, j))
-          /\ \A j \in 1..cx.m : per.oV[j] = FMul(w, S!RefV(tb, sc, j))
+          \* the expected scalar of every dynamic role of this member (points shared between roles or members are summed in Fin)
+          /\ allp' = allp \o <<<<mb.tok.A, FMul(w, S!RefA(sc))>>, <<mb.tok.A1, FMul(w, S!RefA1(cx))>>, <<mb.tok.B, FSub(Zero21, w)>>>>
+                          \o [j \in 1..cx.k |-> <<mb.tok.L[j], FMul(w, S!RefL(sc, cx, j))>>]
+                          \o [j \in 1..cx.k |-> <<mb.tok.R[j], FMul(w, S!RefR(sc, cx, j))>>]
+                          \o [j \in 1..cx.m |-> <<mb.tok.C[j], FMul(w, S!RefV(tb, sc, j))>>]
           /\ (cfg.result = "ok") => MaskOk(mb)
           /\ acc' = [Gi |-> [x \in 1..Len(acc.Gi) |-> IF x <= cx.nm THEN FAdd(acc.Gi[x], FMul(w, S!RefGi(tb, sc, x-1))) ELSE acc.Gi[x]],
                      Hi |-> [x \in 1..Len(acc.Hi) |-> IF x <= cx.nm THEN FAdd(acc.Hi[x], FMul(w, S!RefHi(tb, dd, sc, cx, cx.nm, x-1))) ELSE acc.Hi[x]],
@@ -150,10 +157,12 @@ Acc == /\ pc = "acc"
                      G  |-> [kk \in 1..Len(acc.G) |-> FAdd(acc.G[kk], FMul(w, S!RefG(rsp, kk)))]]
        /\ mi' = mi + 1 /\ pc' = IF mi < NP THEN "red" ELSE "fin"
        /\ UNCHANGED <<l, scripts, abs, chal, rng, r, cfg, wtid, cx, tb, dd, sc, wts>>
+RECURSIVE ExpSum(_,_,_)
+ExpSum(ps, tk, i) == IF i > Len(ps) THEN Zero21 ELSE IF ps[i][1] = tk THEN FAdd(ps[i][2], ExpSum(ps, tk, i + 1)) ELSE ExpSum(ps, tk, i + 1)
 \* every scalar handed to the final MSM, position by position and role by role
 Fin == /\ pc = "fin"
        /\ LET e == Rec[l]  n == Mem(1).n  mx == Len(acc.Gi) IN
-          /\ e.nstat = e.ntable /\ e.ndyn_s = e.ndyn_p /\ e.extras = 0
+          /\ e.nstat = e.ntable /\ e.ndyn_s = e.ndyn_p
           /\ \A p \in 1..Len(e.stat) :
                LET x == e.stat[p][2] * n + e.stat[p][3] IN
                /\ e.stat[p][1] \in {"Gi", "Hi"}
@@ -163,17 +172,21 @@ Fin == /\ pc = "fin"
           /\ CheckLayout => \A p \in 1..Len(e.stat) :
                /\ e.stat[p][1] = (IF p % 2 = 1 THEN "Gi" ELSE "Hi") /\ e.stat[p][2] * n + e.stat[p][3] = (p - 1) \div 2
                /\ e.stat[p][3] < n
-          /\ e.oH = acc.H /\ \A kk \in 1..Len(acc.G) : e.oG[kk] = acc.G[kk]
+          \* dynamic part: for every point, the scalar it carried equals the sum of the expected scalars of all roles that point
+          \* plays (a proof element of some member, a commitment, H, a G_k); nothing else carries a non-zero scalar
+          /\ LET full == allp \o <<<<Mem(1).tok.H, acc.H>>>> \o [kk \in 1..Len(acc.G) |-> <<Mem(1).tok.G[kk], acc.G[kk]>>]
+                 Toks == {full[i][1] : i \in 1..Len(full)} \cup {e.obs[i][1] : i \in 1..Len(e.obs)} IN
+             \A tk \in Toks : Obs(tk) = ExpSum(full, tk, 1)
           /\ Verifying => (e.out_zero <=> (cfg.result = "ok"))
        /\ pc' = "run" /\ l' = l + 1
-       /\ UNCHANGED <<scripts, abs, chal, rng, mi, r, cfg, wtid, cx, tb, dd, sc, acc, wts>>
+       /\ UNCHANGED <<scripts, abs, chal, rng, mi, r, cfg, wtid, cx, tb, dd, sc, acc, wts, allp>>
 
 \* a call that never reached the final check must not have accepted (unless it was asked not to verify)
 RecoverArith == CheckArith /\ Is("VNoMSM") /\ cfg.mode = "RecoverOnly" /\ cfg.result = "ok" /\ NP >= 1
 VNoMSMEv == /\ (Is("VNoMSM") \/ Is("VSkip")) /\ pc = "run"
             /\ (Is("VNoMSM") /\ Verifying) => cfg.result # "ok"
             /\ IF RecoverArith
-               THEN /\ pc' = "red" /\ mi' = 1 /\ wts' = <<>> /\ acc' = <<>> /\ UNCHANGED <<l, r, cx, tb, dd, sc>>     \* micro-steps, then consume
+               THEN /\ pc' = "red" /\ mi' = 1 /\ wts' = <<>> /\ acc' = <<>> /\ UNCHANGED <<l, r, cx, tb, dd, sc, allp>>     \* micro-steps, then consume
                ELSE /\ l' = l + 1 /\ UNCHANGED pc /\ UNCHANGED avars
             /\ UNCHANGED <<scripts, abs, chal, rng, cfg, wtid>>
 
